@@ -1951,6 +1951,7 @@ def rtree_of_model(model):
             if int(st_) != 0 or int(de_) != 1 or int(li_) < 0 or len({st_.dtype, li_.dtype, de_.dtype}) != 1 or st_.dtype.name not in INT_DTYPES:
                 raise Unrecognised(f"Range({st_}, {li_}, {de_})")
             env[out] = (st_.dtype.name, f"(RRange {int(li_)}%nat)")
+            sshape[out] = [int(li_)]
             continue
         if op == "Unsqueeze":
             # Unsqueeze(axes) of a statically shaped value IS the Reshape to its extents with 1 inserted at the axes
